@@ -13,7 +13,7 @@ import yaml
 from lxml import etree as ET
 
 from ..parser_utils import ParserException
-from ..xmlparser import XML_HEADER
+from ..xmlparser import XML_HEADER, to_csv
 
 from ...format import Document, Section, Property
 from ...info import FORMAT_VERSION
@@ -181,10 +181,13 @@ class VersionConverter(object):
 
         tree = self._replace_same_name_entities(tree)
         root = tree.getroot()
+        # A document that already has the current format version holds the values
+        # of a Property in a single value element, encoded as a list.
+        encoded_values = root.get("version") == FORMAT_VERSION
         root.set("version", FORMAT_VERSION)
 
         # Handle Values, exclude unsupported Property attributes and unnamed Properties.
-        self._handle_properties(root)
+        self._handle_properties(root, encoded_values)
 
         # Exclude unsupported Section attributes, ignore comments, handle repositories.
         for sec in root.iter("section"):
@@ -278,16 +281,18 @@ class VersionConverter(object):
         # Print a warning, if no v1.1 compatible repository url can be provided.
         self._log("[Warning] Repository file '%s' is not odML v1.1 compatible." % content)
 
-    def _handle_properties(self, root):
+    def _handle_properties(self, root, encoded_values=False):
         """
         Removes all property elements without name attribute, converts Value
         elements from v1.0 to v1.1 style and removes unsupported Property elements.
 
         :param root: lxml.ElementTree containing a v1.0 odML property list.
+        :param encoded_values: True if the single value element of a Property already
+                               holds a list of values in v1.1 style. Default is False.
         """
         for prop in root.iter("property"):
             main_val = ET.Element("value")
-            multiple_values = False
+            values = []
             parent = prop.getparent()
 
             # If a Property has no name attribute, remove it from its parent and
@@ -311,20 +316,20 @@ class VersionConverter(object):
                 # Move supported elements from Value to parent Property.
                 self._handle_value(value, prop_id)
 
-                if value.text:
-                    if main_val.text:
-                        main_val.text += "," + value.text.strip()
-                        multiple_values = True
-                    else:
-                        main_val.text = value.text.strip()
+                # A value element without text or with blank text holds no value.
+                if value.text and value.text.strip():
+                    values.append(value.text)
 
                 prop.remove(value)
 
             # Append value element only if it contains an actual value
-            if main_val.text:
-                # Multiple values require brackets
-                if multiple_values:
-                    main_val.text = "[" + main_val.text + "]"
+            if values:
+                if encoded_values and len(values) == 1:
+                    main_val.text = values[0].strip()
+                else:
+                    # The values are written the way the XML writer writes them: the
+                    # reader restores them exactly, whatever characters they contain.
+                    main_val.text = to_csv(values)
 
                 prop.append(main_val)
 
